@@ -1155,8 +1155,14 @@ class _Builder:
                 # self.k = self.k + c  /  c + self.k  is the spelled-out bump
                 if isinstance(value, ast.BinOp) and isinstance(value.op, ast.Add):
                     for a, b in ((value.left, value.right), (value.right, value.left)):
-                        if isinstance(a, ast.Attribute) and self.is_self(a.value) \
-                                and a.attr == attr:
+                        same = isinstance(a, ast.Attribute) and self.is_self(a.value) \
+                            and a.attr == attr
+                        # ... or a local that was just read from the counter
+                        if not same and isinstance(a, ast.Name) and \
+                                (self.aliases.get(a.id) == cell or
+                                 self.objalias.get(a.id) == cell):
+                            same = True
+                        if same:
                             k = const_of(b, self.env)
                             if isinstance(k, (int, float)) and \
                                     not isinstance(k, bool) and k > 0:
